@@ -120,6 +120,49 @@ def scenario(tier, steps, four=False, lean=False, two_files=False, mixed=False):
     return fn
 
 
+def nested(b, sym):
+    """a nested history: files of the parent and of the child history (same relative path inside their histories) renamed in one run;
+    an unrelated new file in a new directory; rename detection run with the recorded or with another format"""
+    files = {"R/clip.mov": 1, "R/A/clip.mov": 2, "R/A/x/other.txt": 3}
+    for f, c in files.items():
+        b.mkfile(f, c)
+    r = b.run("create", root="R/A", h=["md5"])
+    b.require(r.exit == 0, "setup-create", str(r))
+    r = b.run("create", root="R", h=["md5"])
+    b.require(r.exit == 0, "setup-create", str(r))
+    moves = {}
+    for i, f in enumerate(["R/clip.mov", "R/A/clip.mov"]):
+        opt = sym.choose("move_%d" % i, ["stay", "rename"])
+        if opt == "rename":
+            moves[f] = posixpath.join(posixpath.dirname(f), "renamed %d.mov" % i)
+    if not moves:
+        sym.assume(False)
+    for old, new in moves.items():
+        b.rename(old, new)
+    if sym.flag("unrelated_new_file_in_a_new_directory"):
+        b.mkfile("R/fresh/brand new.bin", 9)
+    fmts = [sym.choose("dr_format", ["md5", "sha1"])]
+    r = b.run("create", root="R", h=fmts, dr=True)
+    tag = "create -dr -h %s after %s: exit %s exc %s" % (fmts[0], moves, r.exit, r.exc)
+    b.require(r.exit == 0 and r.exc is None, "create-dr-exit-0", tag)
+    b.require(not missing_lines(r), "renamed-reported-missing", "%s: %s" % (tag, missing_lines(r)))
+    for old, new in moves.items():
+        hr = "R/A" if old.startswith("R/A/") else "R"
+        m = b.manifests(hr)[-1]
+        rec = m.record(posixpath.relpath(new, hr))
+        b.require(rec is not None and rec.kind == "file", "renamed-file-recorded", "%s: %s in history %s" % (tag, new, hr))
+        b.require(rec.previous_path == posixpath.relpath(old, hr), "previous-path", "%s: %s has previousPath %r, expected %r"
+                  % (tag, new, rec.previous_path, posixpath.relpath(old, hr)))
+    for f in files:
+        if f not in moves:
+            hr = "R/A" if f.startswith("R/A/") else "R"
+            rec = b.manifests(hr)[-1].record(posixpath.relpath(f, hr))
+            b.require(rec is not None and rec.previous_path is None, "unmoved-file-no-previous-path", "%s: %s" % (tag, f))
+    for cmd in ("verify", "create"):
+        r2 = b.run(cmd, root="R") if cmd != "create" else b.run("create", root="R", h=fmts)
+        b.require(r2.exit == 0 and r2.exc is None, "accepted-afterwards", "%s afterwards: exit %s exc %s | %s" % (cmd, r2.exit, r2.exc, (r2.err + r2.out)[:3]))
+
+
 def harnesses(tier):
     out = ["directory renames", "renames across history boundaries", "-n generations", "files with identical contents"]
     hs = [Harness("c17-renames", scenario(tier, 1, tier != "quick"), frontier=6, budget_s=2400,
@@ -138,4 +181,8 @@ def harnesses(tier):
                       what="files first recorded in different formats (md5 generation, xxh64 generation), several renamed in one step, "
                            "create -dr run with a third / second / first format",
                       bounds={"files": 5, "formats": "md5 then xxh64; -dr with sha1 | xxh64 | md5"}, outside=out))
+    hs.append(Harness("c17-nested", nested, frontier=5, budget_s=1200,
+                      what="parent and nested history each holding a file with the same history-relative path, one or both renamed in place in one run; "
+                           "optional unrelated new file in a new directory; create -dr with the recorded or another format; then verify / create",
+                      bounds={"histories": 2, "files": 3, "formats": "md5 recorded; -dr with md5 | sha1"}, outside=out))
     return hs
